@@ -28,6 +28,9 @@ TNext ==
     \/ Is("egress") /\ P_Egress(E.pk, E.wlen, E.maxage, E.obs)
     \/ Is("deliver") /\ P_Deliver(E.p, E.age, E.obs)
     \/ Is("drop") /\ P_Drop(E.p, E.obs)
+    \/ Is("apark") /\ P_APark(E.a)
+    \/ Is("aunpark") /\ P_AUnpark(E.a)
+    \/ Is("wakes") /\ P_Wakes(E.woken, E.lq)
 
 TSpec == TInit /\ [][TNext]_<<pvars, l>>
 
